@@ -156,14 +156,21 @@ func checkEntity(c *mon.Case, e *entity, faults bool) {
 			continue
 		}
 		for i, b := range e.Blocks {
-			for ek := 0; ek < 2; ek++ {
+			for ek := 0; ek < 3; ek++ {
 				if ek == 1 && i%3 != 0 && len(e.Blocks) > 12 {
 					continue // second error kind on a third of the blocks of big entities
+				}
+				if ek == 2 && (form.Name != "preload-reifier" || (i%2 != 0 && len(e.Blocks) > 12)) {
+					// traversal.SkipMe is a signalling error that a *traversal* may act on; only the
+					// direct reifier call is judged with it
+					continue
 				}
 				st.ClearFaults()
 				st.Absent = map[string]bool{b.KeyString(): true}
 				if ek == 1 {
 					st.AbsentErr = store.ErrInjected
+				} else if ek == 2 {
+					st.AbsentErr = traversal.SkipMe{}
 				}
 				st.ResetLog()
 				var ferr error
